@@ -23,6 +23,13 @@ def to_interrupts(rng, prog, max_n=3):
         n["defaults"] = []
         n["fn"] = "term"
         n["pause_at"] = [1] if rng.random() < 0.8 else []
+        if len(n["inputs"]) >= 2 and rng.random() < 0.4:
+            # the interrupt's first two inputs were exchanged by ONE with_inputs() call: the value shown to the human is
+            # that of the first CURRENT input name
+            a, b = n["inputs"][0], n["inputs"][1]
+            pm = dict(map(tuple, n["pmap"]))
+            pm[a], pm[b] = pm[b], pm[a]
+            n["pmap"] = [[p, pm[p]] for p in n["inputs"]]
         if rng.random() < 0.35:       # the human's answer is a FALSY value ("" / [] / 0 / False)
             n["answers"] = [rng.choice(sorted(IR.FALSY)) for _ in range(n["ndata"])]
         if rng.random() < 0.35 and len(n["outputs"]) == n["ndata"]:
